@@ -268,6 +268,13 @@ func TestC13(t *testing.T) {
 		if m == nil || ev.Layer == "lock" {
 			return
 		}
+		// the gate would make every boundary call wait for the ones in flight: the store writes that record the
+		// instances of one node would never overlap. They are let through ungated (the bounds are evaluated at the
+		// next gated call, with the writes complete), so that two of them can really run side by side.
+		if ev.Layer == "store" && ev.Op == "AddWorkload" {
+			rec.Count("ungated_add_workload_calls/"+storeName, 1)
+			return
+		}
 		w.b.Quiesce(func() { m.observe(ev) })
 	}
 
